@@ -183,3 +183,36 @@ func (w *WaitGroup) Wait() {
 	}
 	w.wg.Wait()
 }
+
+// Cond: Wait spins through the scheduler until the next Signal/Broadcast.
+// Signal wakes every waiter (callers of sync.Cond must re-check their
+// condition in a loop anyway); the internal mutex provides the
+// happens-before edge from the signaller to the woken waiter.
+type Cond struct {
+	L Locker
+
+	mu  sync.Mutex
+	gen uint64
+}
+
+func NewCond(l Locker) *Cond { return &Cond{L: l} }
+
+func (c *Cond) generation() uint64 {
+	c.mu.Lock()
+	g := c.gen
+	c.mu.Unlock()
+	return g
+}
+
+func (c *Cond) Wait() {
+	g := c.generation()
+	c.L.Unlock()
+	zzsimrt.Point()
+	for c.generation() == g {
+		zzsimrt.Blocked()
+	}
+	c.L.Lock()
+}
+
+func (c *Cond) Signal()    { c.Broadcast() }
+func (c *Cond) Broadcast() { c.mu.Lock(); c.gen++; c.mu.Unlock(); zzsimrt.Point() }
